@@ -44,16 +44,17 @@ Proof. exact ja_complete. Qed.
 
 (* unary steps: the label is the one the shape of the input calls for, and every result carries it as rule name and symbol,
    on the configured target categories in order *)
+(* (the helper _unary_rule_symbol is inlined by the translator: the label is read off the per-result body of apply_unary_rules) *)
 Theorem C04_ja_unary_label : forall x, result_ternary x ->
-  GenJa.unary_rule_symbol x = Ok_ (ja_unary_label x) /\
+  (forall c, GenJa.unary_body x c = Ok_ (unary_result (ja_unary_label x) c)) /\
   forall t, GenJa.apply_unary_rules x t = Ok_ (map (unary_result (ja_unary_label x)) (targets x t)).
-Proof. intros x H. split; [now apply ja_unary_symbol | intros t; now apply ja_unary_rules]. Qed.
+Proof. intros x H. split; [intros c; now apply ja_unary_symbol | intros t; now apply ja_unary_rules]. Qed.
 
 (* the domain of the label: a key whose result atom carries a unary feature (or none) raises AttributeError *)
 Theorem C04_ja_unary_label_domain : forall x, ~ result_ternary x ->
-  GenJa.unary_rule_symbol x = Err AttrErr /\
+  (forall c, GenJa.unary_body x c = Err AttrErr) /\
   forall t c rest, table_get x t = Some (c :: rest) -> GenJa.apply_unary_rules x t = Err AttrErr.
-Proof. intros x H. split; [now apply ja_unary_symbol_domain | intros t c rest; now apply ja_unary_rules_domain]. Qed.
+Proof. intros x H. split; [intros c; now apply ja_unary_symbol_domain | intros t c rest; now apply ja_unary_rules_domain]. Qed.
 
 (* ---------- non-vacuity: concrete categories ---------- *)
 Definition k_mod : text := [109;111;100]. Definition k_form : text := [102;111;114;109]. Definition k_fin : text := [102;105;110].
@@ -65,14 +66,15 @@ Definition v_ga : text := [103;97]. Definition v_X1 : text := [88;49]. Definitio
 Definition bs : text := [92].
 
 (* each of the five labels (and OTHER) is reached: this is what breaks if the shape test is wrong *)
+Definition label_of (x : cat) : res text := match GenJa.unary_body x x with Ok_ r => Ok_ (op_symbol r) | Err e => Err e end.
 Example C04_labels_reached :
-  map GenJa.unary_rule_symbol
+  map label_of
       [S_ v_adn; Fun (S_ v_adn) bs (NP_ v_ga v_nm); S_ v_adv; Fun (S_ v_adv) bs (NP_ v_ga v_nm);
        Fun (Fun (S_ v_adv) bs (NP_ v_ga v_nm)) bs (NP_ v_ga v_nm); Fun (Fun (Fun (S_ v_adv) bs (NP_ v_ga v_nm)) bs (NP_ v_ga v_nm)) bs (NP_ v_ga v_nm);
        S_ v_nm]
   = [Ok_ l_ADNext; Ok_ l_ADNint; Ok_ l_ADV0; Ok_ l_ADV1; Ok_ l_ADV2; Ok_ l_ADV0; Ok_ l_OTHER].
 Proof. vm_compute. reflexivity. Qed.
-Example C04_label_domain : GenJa.unary_rule_symbol (Atom [83] (FUn [100;99;108])) = Err AttrErr.
+Example C04_label_domain : label_of (Atom [83] (FUn [100;99;108])) = Err AttrErr.
 Proof. vm_compute. reflexivity. Qed.
 
 (* a non-modifier backward application that instantiates two feature variables from the argument *)
